@@ -888,7 +888,13 @@ class LuaASTEchoWriter(BaseLuaWriter):
                 else:
                     for t in self._walk(exp):
                         yield t
-                    yield self._get_text(node, b'then')
+                    spaces = self._get_code_for_spaces(node)
+                    if self._tokens[self._pos].matches(
+                            lexer.TokKeyword(b'do')):
+                        # The parser accepts "if (cond) do ... end".
+                        yield spaces + self._get_text(node, b'do')
+                    else:
+                        yield spaces + self._get_text(node, b'then')
                     self._indent += 1
                 for t in self._walk(block):
                     yield t
